@@ -15,6 +15,7 @@ from typing import Any, Callable, Dict, List, Optional, Tuple
 from .common import REPO, VERIF, HarnessError, canon, h8, seed_value, setup_path
 
 KNOWN_FILE = os.path.join(VERIF, "KNOWN_FINDINGS.txt")
+OUT = os.environ.get("VERIF_OUT", VERIF)     # where evidence and newly found replays go (selftest redirects it)
 CASE_TIMEOUT = 30
 
 
@@ -308,7 +309,7 @@ def run_check(modname: str, tier: str, replay: Optional[str] = None) -> int:
     rc = 0
     lines: List[str] = []
     new_viol = 0
-    os.makedirs(os.path.join(VERIF, "replays", pid), exist_ok=True)
+    os.makedirs(os.path.join(OUT, "replays", pid), exist_ok=True)
     for sig, ent in sorted(total.viol.items()):
         if sig in known:
             lines.append(f"KNOWN-FINDING: property={pid} {sig}: {known[sig]} (seen {ent['count']}x)")
@@ -320,7 +321,7 @@ def run_check(modname: str, tier: str, replay: Optional[str] = None) -> int:
         det = [v for v in out.get("violations", ()) if v["clause"] == sig]
         if not det:
             small = case
-        path = ent.get("replay_file") or os.path.join(VERIF, "replays", pid, f"found-{sig.replace('/', '_')}-{h8(small)}.json")
+        path = ent.get("replay_file") or os.path.join(OUT, "replays", pid, f"found-{sig.replace('/', '_')}-{h8(small)}.json")
         if not ent.get("replay_file"):
             with open(path, "w") as fh:
                 json.dump({"property": pid, "signature": sig, "detail": det[0]["detail"] if det else ent["detail"], "case": small}, fh, indent=1, default=str)
@@ -328,7 +329,7 @@ def run_check(modname: str, tier: str, replay: Optional[str] = None) -> int:
         lines.append(f"  signature={sig} count={ent['count']} detail={ent['detail']}")
         rc = 1
     for case in hang_cases:
-        path = os.path.join(VERIF, "replays", pid, f"found-hang-{h8(case)}.json")
+        path = os.path.join(OUT, "replays", pid, f"found-hang-{h8(case)}.json")
         with open(path, "w") as fh:
             json.dump({"property": pid, "signature": "hang", "case": case}, fh, indent=1, default=str)
         lines.append(f"VIOLATION property={pid} replay={path}")
@@ -373,8 +374,8 @@ def run_check(modname: str, tier: str, replay: Optional[str] = None) -> int:
     }
     if isinstance(tiers.get("sweep"), dict):
         ev["coverage"]["sweep_exhaustive"] = tiers["sweep"]["exhaustive"]
-    os.makedirs(os.path.join(VERIF, "evidence"), exist_ok=True)
-    with open(os.path.join(VERIF, "evidence", f"{pid}.json"), "w") as fh:
+    os.makedirs(os.path.join(OUT, "evidence"), exist_ok=True)
+    with open(os.path.join(OUT, "evidence", f"{pid}.json"), "w") as fh:
         json.dump(ev, fh, indent=1, default=str)
     for l in lines:
         print(l)
